@@ -1936,6 +1936,13 @@ func replay(file string) {
 		fmt.Println(err)
 		os.Exit(2)
 	}
+	var pr struct {
+		Probe *ProbeParams `json:"probe"`
+	}
+	if json.Unmarshal(b, &pr) == nil && pr.Probe != nil && pr.Probe.Accounts > 0 {
+		replayProbe(*pr.Probe)
+		return
+	}
 	c := &Case{}
 	if err := json.Unmarshal(b, c); err != nil || len(c.Blocks) == 0 {
 		fmt.Println("not a C20 case:", err)
@@ -1964,12 +1971,13 @@ func main() {
 	out := flag.String("out", ".", "")
 	corpus := flag.String("corpus", "/verif/corpus/C20", "")
 	file := flag.String("file", "", "")
+	resets := flag.Int("resets", 100, "")
 	flag.Parse()
 	params.InitNetworkId(params.NetworkIdForTestCase)
 	logging.Root().SetHandler(logging.DiscardHandler())
 	core.VerifSetEvictionInterval(1000 * time.Hour)
 	initKeys()
-	if mode != "stress" && mode != "locks" && mode != "readers" {
+	if mode != "stress" && mode != "locks" && mode != "readers" && mode != "probe" {
 		detectGapFix()
 	}
 	switch mode {
@@ -1981,10 +1989,12 @@ func main() {
 		locksCmd(*out)
 	case "readers":
 		readers(*seed, *n, *out)
+	case "probe":
+		probeCmd(*seed, *n, *resets)
 	case "stress":
 		stress(*seed, *n, *out, *file == "with-TransactionsNumber")
 	default:
-		fmt.Println("usage: c20 gen|replay|locks|stress|readers")
+		fmt.Println("usage: c20 gen|replay|locks|stress|readers|probe")
 		os.Exit(2)
 	}
 }
